@@ -195,9 +195,47 @@ def analyse(facts, tier):
             ap = assign_parts(x)
             if ap and strip(ap[0]).get('k') == 'MemberExpr' and short(strip(ap[0])['n']) == 'temporaryBroken':
                 tb = (strip(ap[1]), st['loc'])
-    ok = tb is not None and tb[0].get('k') == 'BinaryOperator' and tb[0]['op'] in ('>=', '>') and strip(tb[0]['l']).get('id') == sk.params[0]['id'] and short(strip(tb[0]['r']).get('n', '')) == 'm_loopEndTime'
-    obls.append(Obl('C08.R5', sk.name, 'temporaryBroken = target >= loop end', tb[1] if tb else sk.loc, 'discharged' if ok else 'finding',
-                    why=show(tb[0]) if ok else 'loop is marked as passed by %s: a target inside the loop makes the next loop end jump to the song start' % (show(tb[0]) if tb else 'nothing')))
+    # the value says "the target lies at or behind the loop end": it implies `target >= m_loopEndTime`, and it is false whenever
+    # m_loopEndTime holds the place holder it has in a song without a (valid) loop end (the negative constant the sequencer stores
+    # into it: every target is >= -1.0, and a loop marked as passed makes the next song end jump back without counting the pass)
+    def num_of(e):
+        e = strip(e)
+        c = const_of(e)
+        return c if c is not None else (e.get('fc') if isinstance(e, dict) else None)       # folded floating constant
+    sentinels = set()
+    for f_ in facts.all_fns():
+        if f_.tree is None or 'Sequencer' not in f_.name:
+            continue
+        for x in walk(f_.tree):
+            ap = assign_parts(x) if isinstance(x, dict) else None
+            if ap and ap[2] == '=' and strip(ap[0]).get('k') == 'MemberExpr' and short(strip(ap[0])['n']) == 'm_loopEndTime' and num_of(ap[1]) is not None:
+                sentinels.add(num_of(ap[1]))
+    if not sentinels:
+        raise build.AnalysisBroken('C08.R5: the place holder stored into m_loopEndTime (no loop end) not found')
+    lits = literals(tb[0], True) if tb is not None else []
+    def is_end(e):
+        e = strip(e)
+        return e.get('k') == 'MemberExpr' and short(e['n']) == 'm_loopEndTime'
+    def is_target(e):
+        return strip(e).get('id') == sk.params[0]['id']
+    behind = any(f[0] == 'cmp' and ((f[1] in ('>=', '>') and is_target(f[2]) and is_end(f[3])) or (f[1] in ('<=', '<') and is_end(f[2]) and is_target(f[3]))) for f in lits)
+    def excludes(c):
+        import operator
+        ops = {'>=': operator.ge, '>': operator.gt, '<': operator.lt, '<=': operator.le, '==': operator.eq, '!=': operator.ne}
+        for f in lits:
+            if f[0] != 'cmp':
+                continue
+            for op_, e_, c_ in ((f[1], f[2], num_of(f[3])), (SWAP[f[1]], f[3], num_of(f[2]))):
+                if is_end(e_) and isinstance(c_, (int, float)) and op_ in ops and not ops[op_](c, c_):
+                    return True
+        return False
+    open_for = sorted(c for c in sentinels if not excludes(c))
+    ok = tb is not None and behind and not open_for
+    obls.append(Obl('C08.R5', sk.name, 'temporaryBroken = a loop end exists and target >= loop end', tb[1] if tb else sk.loc, 'discharged' if ok else 'finding',
+                    why=show(tb[0]) if ok else
+                    ('the loop is marked as passed by `%s`, which also holds when m_loopEndTime is the place holder %s of a song without a loop end: after any seek the next song end jumps back without counting the pass, the song plays once more than requested' % (show(tb[0]), open_for[0])
+                     if tb is not None and behind else
+                     'loop is marked as passed by %s: a target inside the loop makes the next loop end jump to the song start' % (show(tb[0]) if tb else 'nothing'))))
     obls += r6(facts)
     obls += r7(facts)
     obls += r1b_audio(facts)
